@@ -59,8 +59,13 @@ class LayoutResolution(RewritePattern):
 
             strides: list[int] = []
 
+            # the stride of a dimension is its unit response relative to the response at the origin
+            # (a static layout offset would otherwise be added to every stride)
+            zero_response = access_mem_map.eval([0] * access_mem_map.num_dims, ())[0]
             for i in range(access_mem_map.num_dims):
-                strides.append(access_mem_map.eval(generate_one_list(access_mem_map.num_dims, i), ())[0])
+                strides.append(
+                    access_mem_map.eval(generate_one_list(access_mem_map.num_dims, i), ())[0] - zero_response
+                )
 
             access_patterns.append(AffineTransform(np.array([strides]), np.array([0])).to_affine_map())
 
